@@ -52,6 +52,7 @@ type VC struct {
 	allowPanic bool
 	goroutines int
 	usedCallCl map[string]bool
+	qdepth     int
 }
 
 func newVC(eng *Engine, fn *ssa.Function, con *Contract) *VC {
@@ -78,11 +79,18 @@ func (vc *VC) assumeRaw(t Term) {
 	if t.S == "true" {
 		return
 	}
+	if vc.qdepth > 0 && strings.Contains(t.S, "bv$") {
+		// side fact about a term that mentions a bound variable: cannot be stated globally
+		return
+	}
 	vc.assumes = append(vc.assumes, "(assert "+t.S+")")
 }
 
 func (vc *VC) assume(t Term, why string) {
 	if t.S == "true" {
+		return
+	}
+	if vc.qdepth > 0 && strings.Contains(t.S, "bv$") {
 		return
 	}
 	vc.assumes = append(vc.assumes, "(assert "+t.S+") ; "+why)
@@ -124,6 +132,16 @@ func (vc *VC) addObl(o *Obligation) {
 		o.Name = fmt.Sprintf("%s~%d", base, n)
 	}
 	vc.obls = append(vc.obls, o)
+	// assert-then-assume: an obligation stated at a program point may be used by
+	// the obligations that follow it (its own failure is reported separately).
+	if o.Expect == "unsat" && o.Goal.S != "false" && o.Goal.S != "true" && o.Kind != "cover" && o.Kind != "census" {
+		pre := []Term{}
+		if o.Guard.S != "" {
+			pre = append(pre, o.Guard)
+		}
+		pre = append(pre, o.Hyps...)
+		vc.assumes = append(vc.assumes, "(assert "+Implies(And(pre...), o.Goal).S+") ; asserted above as "+o.Name)
+	}
 }
 
 // QueryText renders the SMT query for one obligation.
